@@ -465,6 +465,28 @@ def cfg_hierarchy(spec, sub):
     return spec["levels"][:spec["levels"].index(last) + 1]
 
 
+def hook_views(spec, mod):
+    """For K and each ancestor: (Coq case `(hooks of the dataclasses of its MRO nearest first, uses the mixins, level whose
+    body defines the classmethod that CodeBuilder(cls).get_declared_hook('__pre_deserialize__') returns)`, class, level)"""
+    from mashumaro.core.meta.code.builder import CodeBuilder
+    from mashumaro.mixins.dict import DataClassDictMixin
+    out = []
+    levels = spec["levels"]
+    for j, lv in enumerate(levels):
+        cls = getattr(mod, lv["cls"])
+        sub = levels[:j + 1] if (spec["shape"] == "chain" or lv["cls"] == "K") else [lv]
+        got = CodeBuilder(cls).get_declared_hook("__pre_deserialize__")
+        where = None
+        if got is not None:
+            owners = [i for i, x in enumerate(sub) if getattr(mod, x["cls"]).__dict__.get("__pre_deserialize__") is got]
+            where = owners[0] if len(owners) == 1 else -1         # -1: not the classmethod of any class of the hierarchy
+        hs = c_hooks({"levels": list(reversed(sub))})
+        mixin = DataClassDictMixin in cls.__mro__
+        o = "None" if where is None else f"(Some {where}%nat)" if where >= 0 else "(Some 99%nat)"
+        out.append((f"({hs}, {vlib.coq_bool(mixin)}, {o})", lv["cls"], where))
+    return out
+
+
 def source_views(spec, mod):
     """For K and each ancestor: (the part of the hierarchy the class is made of, what CodeBuilder(cls).dataclass_fields
     holds [(name, metadata alias, init)], what CodeBuilder(cls).get_config() holds) as Coq terms."""
@@ -1716,7 +1738,7 @@ def gen_discr_spec(rng):
 def discr_stream(ctx, rng, k4_ok):
     from mashumaro.codecs import BasicDecoder
     from mashumaro.core.meta.code.builder import CodeBuilder
-    k43_ok = bool(ctx.kernel_report.get("K43", {}).get("ok"))
+    k109a_ok = bool(ctx.kernel_report.get("K109a", {}).get("ok"))
     items, shown = [], []
     views, vshown = [], []
     for ci in range(ctx.budget(60, 160)):
@@ -1791,17 +1813,17 @@ def discr_stream(ctx, rng, k4_ok):
             items.append((f"h{ci}", dtxt, f"(dh{ci}, {dfl}, {c_dict(d)}, {c_obs(obs0)})"))
             shown.append((src, d, obs0))
         drop_module(mod)
-    MODEL = ("KeyModel KeyImpl KeyProofs KeyCfg PyK_alias PyK_clsdiscr KeyDiscr", "From VerifGen Require Import K4 K43.", ["theories/KeyDiscr.vo"])
-    n1 = "discriminator: get_discriminator(K43)/nearest_discr/own_discr-vs-CodeBuilder.get_discriminator"
-    n2 = "discriminator: impl_from_dhier(K4,K43)/keymodel with nearest_discr-vs-from_dict"
-    if k4_ok and k43_ok:
+    MODEL = ("KeyModel KeyImpl KeyProofs KeyCfg PyK_alias PyK_clsdiscr KeyDiscr", "From VerifGen Require Import K4 K109a.", ["theories/KeyDiscr.vo"])
+    n1 = "discriminator: get_discriminator(K109a)/nearest_discr/own_discr-vs-CodeBuilder.get_discriminator"
+    n2 = "discriminator: impl_from_dhier(K4,K109a)/keymodel with nearest_discr-vs-from_dict"
+    if k4_ok and k109a_ok:
         bad, log = coq_check("c09_dview", MODEL, views, "fun c => match c with (r, p, o) => discr_view_ok r p o end", ctx,
                              ctype="list dlevel * option (option string) * option (option string)")
         bad2, log2 = coq_check("c09_dhier", MODEL, items, "fun c => match c with (r, dfl, d, o) => dhier_ok r dfl d o end", ctx,
                                ctype="list dlevel * list Z * dict * observation")
     else:
         bad = bad2 = None
-        log = log2 = "kernel K43 / K4 did not translate: " + str(ctx.kernel_report.get("K43", {}).get("error"))
+        log = log2 = "kernel K109a / K4 did not translate: " + str(ctx.kernel_report.get("K109a", {}).get("error"))
     settle(ctx, "discr-view", n1, len(views), bad, log,
            lambda b: f"{len(b)} cases, first: class {vshown[b[0]][1]}: get_discriminator(True/False) = {vshown[b[0]][2]!r}\n{vshown[b[0]][0]}")
     settle(ctx, "discr", n2, len(items), bad2, log2,
@@ -1816,7 +1838,7 @@ THEOREMS = ["K4_precedence", "K4_key_plan", "K4_allowed_keys", "C09_impl_is_code
             "C09_nearest_declaration", "C09_nearest_config", "C09_get_config", "C09_builder_config", "C09_fields_unique", "C09_alias_from_sources",
             "C09_mro_chain", "C09_mro_roots", "C09_own_view_finished", "C09_own_view_raw", "C09_nested", "C09_nested_inner_options", "C09_pre_hook", "C09_nearest_hook", "C09_hook_rename",
             "C09_dc_lookup", "C09_dc_chain", "C09_dc_roots", "C09_dataclass_fields_dc", "C09_deep", "C09_deep_list", "C09_deep_map_keys", "C09_deep_hooks", "C09_deep_no_hooks", "C09_inner_hook",
-            "C09_get_discriminator", "C09_own_discriminator", "C09_keys_discr", "C09_discr_accepted", "C09_discr_config_inheritance",
+            "C09_get_discriminator", "C09_own_discriminator", "C09_keys_discr", "C09_discr_accepted", "C09_discr_config_inheritance", "C09_declared_hook", "C09_pre_hook_code",
             "C09_field_key", "C09_outcome", "C09_alias_wins", "C09_fallback", "C09_accepted_covers_reads",
             "C09_reads_allowed", "C09_extra_members", "C09_extra_exact", "C09_ignored", "C09_forbidden_reported"]
 
@@ -1876,7 +1898,7 @@ def run(ctx: vlib.Ctx):
     # its own timeout): build it first with a generous budget, so that no obligation below depends on the 900 s of
     # vlib.coq_make being enough for a build from scratch.  Failures are reported by ctx.theorems / coq_check below.
     vlib.coq_make(["props/C09_keys.vo"], timeout=3300, jobs=6)
-    br = ctx.theorems("props/C09_keys.vo", THEOREMS, kernels=["K4", "K5", "K43"])
+    br = ctx.theorems("props/C09_keys.vo", THEOREMS, kernels=["K4", "K5", "K109a", "K109b"])
     # every registered name must be a theorem of the props file with its own Print Assumptions, all closed
     import os
     import re
@@ -1912,6 +1934,7 @@ def run(ctx: vlib.Ctx):
               for m in (None, "dict") for nf, dp in ((1, 1), (2, 3))]
     cases = []          # (spec, src, entry, d, obs)
     src_items, src_shown = [], []      # the builder's view of the classes vs the modelled Python semantics
+    hook_items, hook_shown = [], []    # which __pre_deserialize__ CodeBuilder.get_declared_hook finds
     coq_defs = []
     coq_cases = []
     dom_cases = []
@@ -1947,6 +1970,12 @@ def run(ctx: vlib.Ctx):
             ctx.fail(f"CodeBuilder view fails: {type(e).__name__}: {e}",
                      {"entry": "class-creation", "source": src, "spec": spec, "input": [], "observed": repr(e),
                       "expected": "CodeBuilder(cls).dataclass_fields / get_config()"}, {"kind": "class-creation", "exc": type(e).__name__})
+        try:
+            for hv_case in hook_views(spec, mod):
+                hook_items.append((len(hook_items), "", hv_case[0]))
+                hook_shown.append((src,) + hv_case[1:])
+        except Exception as e:
+            ctx.not_shown("hook views", f"{type(e).__name__}: {e}")
         try:
             tbl = c_table(spec, mod)
             for j, fs, hv in dc_views(spec, mod):
@@ -2078,6 +2107,17 @@ def run(ctx: vlib.Ctx):
                          ctype="list level * list level * list (string * option string * bool) * cfg")
     nm = "collect/nearest_cfg/impl_cfg(K4)-vs-CodeBuilder.dataclass_fields/get_config"
     settle(ctx, None, nm, len(src_items), bad, log, lambda b: f"{len(b)} cases, first: {src_shown[b[0]][1:]} of\n{src_shown[b[0]][0]}")
+    # ---- which __pre_deserialize__ the builder finds, through the translated lookup (K109b)
+    nmh = "get_declared_hook(K109b)/declared_idx-vs-CodeBuilder.get_declared_hook"
+    if bool(ctx.kernel_report.get("K109b", {}).get("ok")):
+        bad, log = coq_check("c09_hookview", ("KeyModel KeyRewrite PyK_alias PyK_clsdiscr KeyHookLookup", "From VerifGen Require Import K109b.",
+                                              ["theories/KeyHookLookup.vo"]), hook_items,
+                             "fun c => match c with (hs, mx, o) => hook_view_ok hs mx o end", ctx,
+                             ctype="list (option (list hookop)) * bool * option nat")
+    else:
+        bad, log = None, "kernel K109b did not translate: " + str(ctx.kernel_report.get("K109b", {}).get("error"))
+    settle(ctx, None, nmh, len(hook_items), bad, log,
+           lambda b: f"{len(b)} cases, first: class {hook_shown[b[0]][1]}: hook defined by level {hook_shown[b[0]][2]!r}\n{hook_shown[b[0]][0]}")
     # ---- class-level discriminators anywhere in the hierarchy (after everything else: the earlier streams keep their cases)
     discr_stream(ctx, rng, k4_ok)
 
